@@ -59,6 +59,9 @@ fn convert_interpreter_output_for_js(value: InterpreterOutput) -> JsInterpreterO
 pub struct JsInterpreter {
     interpreter: Interpreter,
     latest_error: Option<String>,
+    /// Output of an interpreter that has since been replaced (via `NEW`) but
+    /// that nobody has taken yet.
+    orphaned_output: Vec<JsInterpreterOutput>,
 }
 
 #[wasm_bindgen]
@@ -70,6 +73,10 @@ impl JsInterpreter {
 
     fn maybe_replace_interpreter(&mut self) {
         if self.interpreter.get_state() == InterpreterState::NewInterpreterRequested {
+            // Don't lose whatever the old interpreter has output but the page
+            // hasn't shown yet.
+            let output = self.take_latest_output();
+            self.orphaned_output = output;
             self.interpreter = Interpreter::default();
         }
     }
@@ -83,11 +90,14 @@ impl JsInterpreter {
     }
 
     pub fn take_latest_output(&mut self) -> Vec<JsInterpreterOutput> {
-        self.interpreter
-            .take_output()
-            .into_iter()
-            .map(|output| convert_interpreter_output_for_js(output))
-            .collect::<Vec<_>>()
+        let mut outputs = std::mem::take(&mut self.orphaned_output);
+        outputs.extend(
+            self.interpreter
+                .take_output()
+                .into_iter()
+                .map(|output| convert_interpreter_output_for_js(output)),
+        );
+        outputs
     }
 
     pub fn take_latest_error(&mut self) -> Option<String> {
